@@ -84,7 +84,9 @@ fn main() {
     let file = std::fs::OpenOptions::new().create(true).append(true).open(&args[4]).expect("out file");
     let mut out = Out { file };
     // silence the default panic message: panics of the code under test are caught and recorded
-    std::panic::set_hook(Box::new(|_| {}));
+    if std::env::var_os("SYMX_LOUD").is_none() {
+        std::panic::set_hook(Box::new(|_| {}));
+    }
     for line in std::io::BufReader::new(input).lines() {
         let line = line.expect("read");
         if line.trim().is_empty() {
@@ -124,6 +126,22 @@ fn run_one(prop: &str, sk: &ledger::Skeleton, out: &mut Out) {
         let mut rec = leaf_record(prop, sk, &leaf);
         if sk.opt_i64("pc").unwrap_or(0) == 1 {
             rec["pc"] = json!(vx::pc());
+        }
+        // path witness: concrete inputs satisfying this leaf's path condition, replayed by the driver on the
+        // build with the real rust_decimal; the outcome signature must coincide
+        let k = sk.opt_i64("wit").unwrap_or(0);
+        if k > 0 {
+            let tr = vx::trail();
+            let h = tr.bytes().fold(1469598103934665603u64, |a, b| (a ^ b as u64).wrapping_mul(1099511628211));
+            if h % (k as u64) == 0 {
+                if let Some(w) = vx::witness() {
+                    let mut o = serde_json::Map::new();
+                    for (n, v) in w {
+                        o.insert(n, Value::String(v));
+                    }
+                    rec["witness"] = Value::Object(o);
+                }
+            }
         }
         out.write(&rec);
         sym::leaf_exit();
